@@ -3,7 +3,7 @@ import ast
 import collections
 
 from .. import astx, hooks
-from ..core import REPO
+from ..core import REPO, CaseTimeout, case_timeout
 from ..gen_expr import Gen, datasets
 from ..refeval import evaluate
 
@@ -153,6 +153,11 @@ DIRECTED = [
     ("SelectMany(SelectMany(EventDataset(), lambda e: e.jets), lambda e: e.trks)", "reuse-fusion"),
     ("SelectMany(Select(EventDataset(), lambda e: e.jets), lambda e: Select(e, lambda e: e.pt))", "identical-fusion"),
     ("Select(Where(Select(EventDataset(), lambda e: (e.x, e.jets)), lambda e: e[0] > 5), lambda e: Count(e[1]))", "where-of-select"),
+    ("Select(EventDataset(), lambda e: Where(SelectMany(e.jets, lambda e: e.trks), lambda t: t.pt > e.met))", "capture-where-of-selectmany"),
+    ("Select(EventDataset(), lambda e: Select(SelectMany(e.jets, lambda e: e.trks), lambda t: t.pt + e.met))", "capture-select-of-selectmany"),
+    ("Select(EventDataset(), lambda e: SelectMany(SelectMany(e.jets, lambda e: e.trks), lambda t: Select(e.trks, lambda u: u.pt + t.pt)))", "capture-selectmany-of-selectmany"),
+    ("Select(Select(EventDataset(), lambda e: Where(e.jets, lambda j: j.pt > 1)), lambda s: (Count(Where(s, lambda k: k.eta > 2)), Count(s)))", "shared-argument"),
+    ("Select(Select(EventDataset(), lambda a: {'c': SelectMany(a.jets, lambda j: j.trks)}), lambda r: Count(SelectMany(r.c, lambda t: r.c)))", "selectmany-of-selectmany-under-substitution"),
     ("Where(EventDataset(), lambda e: True)", "where-true"),
     ("Where(EventDataset(), lambda e: (lambda t: t)(True))", "where-true"),
 ]
@@ -181,8 +186,15 @@ def shard_main(ctx):
             continue
         for f in g.feat:
             ctx.count("feature:" + f)
+        if astx.size(q) > 400:
+            ctx.count("skipped:input-too-large")
+            continue
         data = datasets(rnd)
-        run_case(ctx, q, data, {"naming": naming, "method_form": mf, "case_seed": (ctx.seed, ctx.shard, i)})
+        try:
+            with case_timeout(4.0):
+                run_case(ctx, q, data, {"naming": naming, "method_form": mf, "case_seed": (ctx.seed, ctx.shard, i)})
+        except CaseTimeout:
+            ctx.count("inconclusive:case-timeout")
 
 
 def replay(ctx, witness):
